@@ -68,6 +68,13 @@ class Stop(BaseException):
     """private sentinel that ends a run when the script is exhausted"""
 
 
+HANGS = [0]
+
+
+class HarnessWatchdog(BaseException):
+    """raised by the harness's alarm when the code under check has made no exit for 10 s"""
+
+
 def hx(b):
     return b.hex() if b else "-"
 
@@ -535,15 +542,29 @@ def impl_run(s, real_helper=None):
     client._main = wrapped_main
     os.environ["NOTIFY_SOCKET"] = "/run/verif-c12-notify"
     so, se = sys.stdout, sys.stderr
+    # watchdog: code that never leaves a loop must not hang the check; it is reported as what it is
+    import signal as _rsig
+
+    def _on_alarm(signum, frame):
+        raise HarnessWatchdog()
+    _old_alarm = _rsig.signal(_rsig.SIGALRM, _on_alarm)
+    # 10 s for the first few runs that hang; afterwards half a second (a scripted run needs milliseconds), so that
+    # a change that makes many scripts hang cannot make the check itself take hours
+    _rsig.setitimer(_rsig.ITIMER_REAL, 10.0 if HANGS[0] < 2 else 0.5)
     try:
         try:
             rv = client.main(None, ("127.0.0.1", 0), None, "remote", s.get("python"), True, 32768, False, [],
                              "nat", None, False, s["auto_nets"], [(real_socket.AF_INET, "10.0.0.0", 8, 0, 0)], [],
                              s["daemon"], None, PIDFILE, None, None, True, False, None, "0x01")
             rec("Return(%r)" % (rv,))
+        except HarnessWatchdog:
+            HANGS[0] += 1
+            rec("Exit(Hang)")
         except BaseException as e:
             rec("Exit(%s)" % canon_exc(e))
     finally:
+        _rsig.setitimer(_rsig.ITIMER_REAL, 0)
+        _rsig.signal(_rsig.SIGALRM, _old_alarm)
         (ssh.connect, ssnet.runonce, client.log, helpers.log, client.FirewallClient, client.MultiListener,
          client.os, client.signal, sdnotify.socket, client._main, helpers.logprefix, ns, pidname) = saved
         if ns is None:
@@ -584,6 +605,9 @@ def oracle(tr, s=None, sync_ok=None, iters_run=None):
             bad.append("the main loop kept running after ssh was found dead")
         if dead and "MainEnd(Stop)" in tr:
             bad.append("the main loop kept running after ssh was found dead")
+    if tr and tr[-1] == "Exit(Hang)":
+        bad.append("the client never left its start-up / main code (no exit within the watchdog time of a scripted run that needs "
+                   "milliseconds): the control channel to the helper is never closed")
     if "MainEnter" in tr:
         if "FwClose" not in tr:
             bad.append("try block entered but the helper channel was never closed")
